@@ -30,9 +30,11 @@ TRefresh  == /\ IsEvent("Refresh") /\ R.res = WriteRes(C)
              /\ \/ RefreshDisk(R.d, C)
                 \/ (R.sizecls \in {"eq", "stream"} /\ RefreshMem(R.d, C))   \* the memory path needs the reported size to equal the stream's length
              /\ ObsOK
+\* a writer handle opened before the commit writes after it: the committed content must not change
+TLate     == IsEvent("LateWrite") /\ LateWrite(R.d, C) /\ ObsOK
 TDrain    == IsEvent("Drain") /\ (DrainStep \/ (drainq = <<>> /\ UNCHANGED vars)) /\ ObsOK
 
-TraceNext == TReset \/ TUpload \/ TTransfer \/ TRefresh \/ TDrain
+TraceNext == TReset \/ TUpload \/ TTransfer \/ TRefresh \/ TDrain \/ TLate
 TraceSpec == TraceInit /\ [][TraceNext]_tvars
 
 HW == TLCSet(1, IF TLCGet(1) < l THEN l ELSE TLCGet(1))
